@@ -17,7 +17,7 @@ def make(tier, seed):
               "serialisers in five formats with spelling variants (literal / named / decimal / hex references where the format has them), source "
               "line-wrapping with indentation (DFXP, SAMI), tag nestings (i/b/u, span, WebVTT c/i/b/u/ruby/rt/lang/timestamp/voice tags, unknown tags); "
               "distinct = distinct document; non-trivial = a reference, a wrapped line, or a tag occurs")
-    c.predicates = {"vtt_numeric_or_extra_named_ref": pred_vtt_refs}
+    c.predicates = {"vtt_numeric_or_extra_named_ref": pred_vtt_refs, "wrap_next_to_inline_element": pred_wrap_inline}
     return c
 
 
@@ -27,6 +27,31 @@ def pred_vtt_refs(case):
         return False
     refs = re.findall(r"&(#[0-9]+|#x[0-9a-fA-F]+|[A-Za-z][A-Za-z0-9]*);", case.get("document", ""))
     return any(r not in ("amp", "lt", "gt", "nbsp", "lrm", "rlm") for r in refs)
+
+
+def pred_wrap_inline(case):
+    """DFXP / SAMI: the document has a source line wrap (white space with a line break) directly between character data and
+    an inline element, and the text read differs from the authored text in white space only (a lost word boundary)"""
+    if case.get("format") not in ("dfxp", "sami"):
+        return False
+    doc = case.get("document", "")
+    tag_end = re.compile(r"<[/!?A-Za-z][^<>]*>\Z")
+    hit = False
+    for m in re.finditer(r"\s*[\r\n]\s*<(span|i|b|u)\b", doc, re.I):          # character data, wrap, opening inline tag
+        before = doc[:m.start()]
+        if before and not before[-1].isspace() and not tag_end.search(before):
+            hit = True
+    for m in re.finditer(r"</(span|i|b|u)>\s*[\r\n]\s*", doc, re.I):            # closing inline tag, wrap, character data
+        after = doc[m.end():]
+        if after and not after.startswith("<"):
+            hit = True
+    if not hit:
+        return False
+    impl, spec = case.get("impl"), case.get("spec")
+    if not isinstance(impl, list) or not isinstance(spec, list):
+        return False
+    squash = lambda caps: [["".join(l.split()) for l in c] for c in caps]
+    return impl != spec and squash(impl) == squash(spec)
 
 
 def norm(line):
@@ -119,7 +144,18 @@ def ser_xml_like(lines, rng, fmt):
                 segs.append('<span %s>%s</span>' % (attr, txt))
             else:
                 segs.append("<%s>%s</%s>" % (s, txt, s))
-        parts.append(" ".join(segs))
+        # between two runs of a line: a blank, a source line wrap (the line break and indentation of pretty-printed
+        # markup next to an inline element), or a comment with blanks around it -- all of them one word boundary on display
+        line_txt = segs[0]
+        for sg in segs[1:]:
+            r = rng.random()
+            if r < 0.8:
+                line_txt += " " + sg
+            elif r < 0.92:
+                line_txt += rng.choice(["\n", "\n     ", "\r\n   "]) + sg; wrapped = True
+            else:
+                line_txt += " <!-- aside: not displayed --> " + sg; wrapped = True
+        parts.append(line_txt)
     return "".join(parts), wrapped
 
 
